@@ -6,7 +6,7 @@
    where the harness tabulates the real engine. *)
 From Coq Require Import ZArith.
 From TL Require Import Lib.Base Lib.GenTypes Model.PlacementTypes Gen.PlacementGen Model.Placement Model.PlacementSource
-     Model.PlacementRun Actual.PlacementActual.
+     Model.PlacementRun Actual.PlacementActual Proofs.PlacementOrder.
 
 Definition all_valid (p : string) : bool := true.
 Definition absf (p : string) : fileq := {| f_cwd := ""; f_rest := p; f_relative := false |}.
@@ -82,6 +82,23 @@ Theorem C18_trailing_slash_depth_refuted :
   /\ forget (run all_valid (tbl_matches w5_mt) (with_flag 4 placement_actual) w5_cfg (absf "lib/core/x.py"))
     = spec all_valid (tbl_matches w5_mt) w5_cfg (absf "lib/core/x.py").
 Proof. split; vm_compute; [discriminate|reflexivity]. Qed.
+
+(* the same defect makes the verdict depend on the ORDER of the rules although the two directories are distinct
+   (contrast C18_report_order_independent): with lib/core listed first it wins, with lib/ listed first lib/ wins *)
+Definition w5_swapped : config := {|
+  c_dirs := Some [("lib/core", {| r_allow := None; r_deny := Some [DDict "x" (Some "CORE") None] |});
+                  ("lib/", {| r_allow := None; r_deny := Some [DDict "x" (Some "LIB") None] |})];
+  c_gdeny := None; c_gpat := None |}.
+Theorem C18_trailing_slash_depth_order_dependent_refuted :
+  distinct_dirs (dirs_of w5_cfg)
+  /\ run all_valid (tbl_matches w5_mt) placement_actual w5_cfg (absf "lib/core/x.py")
+     <> run all_valid (tbl_matches w5_mt) placement_actual w5_swapped (absf "lib/core/x.py")
+  /\ run all_valid (tbl_matches w5_mt) (with_flag 4 placement_actual) w5_cfg (absf "lib/core/x.py")
+     = run all_valid (tbl_matches w5_mt) (with_flag 4 placement_actual) w5_swapped (absf "lib/core/x.py").
+Proof.
+  split; [|split; vm_compute; [discriminate|reflexivity]].
+  unfold distinct_dirs. vm_compute. repeat constructor; cbn [In]; intuition discriminate.
+Qed.
 
 (* a key written with a trailing slash is NOT subject to the bare-prefix defect: `lib/` does not cover
    lib64/x.py or library.txt in the current tree (regression witness: faithful model = specification) *)
